@@ -45,6 +45,11 @@ fn observe<L: leptos_i18n::Locale, SL: leptos_i18n::Locale<L>>(id: u32, scoped: 
         let enc = serde_json::to_string(&l).unwrap();
         emit(id, &format!("serde_enc:{n}"), &enc);
         emit(id, &format!("serde_dec:{n}"), serde_json::from_str::<L>(&enc).map(|x| x.as_str()).unwrap_or("<err>"));
+        // the three ways a deserializer may hand a string over: borrowed (above), owned, transient
+        emit(id, &format!("serde_dec_value:{n}"), serde_json::from_value::<L>(serde_json::Value::String(n.to_string())).map(|x| x.as_str()).unwrap_or("<err>"));
+        emit(id, &format!("serde_dec_reader:{n}"), serde_json::from_reader::<_, L>(enc.as_bytes()).map(|x| x.as_str()).unwrap_or("<err>"));
+        let escaped = format!("\"{}\"", n.chars().map(|c| format!("\\u{:04x}", c as u32)).collect::<String>());
+        emit(id, &format!("serde_dec_escaped:{n}"), serde_json::from_str::<L>(&escaped).map(|x| x.as_str()).unwrap_or("<err>"));
         let c = <codee::string::FromToStringCodec as codee::Encoder<L>>::encode(&l).unwrap();
         emit(id, &format!("codec_enc:{n}"), &c);
         emit(id, &format!("codec_dec:{n}"), &<codee::string::FromToStringCodec as codee::Decoder<L>>::decode(&c).map(|x| x.as_str().to_string()).unwrap_or_else(|_| "<err>".into()));
@@ -70,6 +75,7 @@ fn observe<L: leptos_i18n::Locale, SL: leptos_i18n::Locale<L>>(id: u32, scoped: 
     for (i, s) in near.iter().enumerate() {
         emit(id, &format!("near_from_str:{i}"), &L::from_str(s).map(|x| x.as_str().to_string()).unwrap_or_else(|_| "<err>".into()));
         emit(id, &format!("near_serde:{i}"), &serde_json::from_str::<L>(&serde_json::to_string(s).unwrap()).map(|x| x.as_str().to_string()).unwrap_or_else(|_| "<err>".into()));
+        emit(id, &format!("near_serde_value:{i}"), &serde_json::from_value::<L>(serde_json::Value::String(s.to_string())).map(|x| x.as_str().to_string()).unwrap_or_else(|_| "<err>".into()));
         emit(id, &format!("near_codec:{i}"), &<codee::string::FromToStringCodec as codee::Decoder<L>>::decode(s).map(|x| x.as_str().to_string()).unwrap_or_else(|_| "<err>".into()));
     }
 }
@@ -156,7 +162,7 @@ def run(tier, seed, replay=None):
             for n in names:
                 if prefix_pair:
                     res.nontriv([names, n])
-                for key in ("display", "as_ref_str", "from_str", "serde_dec", "codec_enc", "codec_dec", "scoped_as_str", "scoped_display", "scoped_base", "scoped_from_str"):
+                for key in ("display", "as_ref_str", "from_str", "serde_dec", "serde_dec_value", "serde_dec_reader", "serde_dec_escaped", "codec_enc", "codec_dec", "scoped_as_str", "scoped_display", "scoped_base", "scoped_from_str"):
                     expect("%s:%s" % (key, n), n, "C13/%s-does-not-round-trip" % key)
                 expect("serde_enc:" + n, json.dumps(n), "C13/serde_enc-does-not-round-trip")
                 expect("scoped_serde:" + n, json.dumps(n), "C13/scoped_serde-does-not-round-trip")
@@ -181,6 +187,7 @@ def run(tier, seed, replay=None):
                 # serde: unknown -> default; never a non-default locale
                 wants = s.strip() if s.strip() in names else names[0]
                 expect("near_serde:%d" % i, wants, "C13/near-string-deserialises-to-non-default-locale")
+                expect("near_serde_value:%d" % i, wants, "C13/near-string-deserialises-to-non-default-locale")
             res.sample({"set": names, "get_all": ga, "near_strings_tried": len(near)}, limit=4)
     res.assumptions += ["ICU4X LocaleDirectionality (compiled data) is the CLDR oracle for direction", "a name with surrounding whitespace counts as that name (both the config and from_str trim)"]
     return res.finish(min_events=1000)
